@@ -17,6 +17,15 @@ HINTS = {
          'value cached or computed once where it must follow later changes, a default parameter value, the order of two operations that '
          'only matters for one configuration of the quantifier, an exception that is caught too broadly or converted into a default value. '
          'Each of the three seeds must sit in a different function and use a different one of these mechanisms.',
+    '5': 'Use ordinary Python / numpy slips that keep the shape of the code: a falsy test (`if not x:` / `x or default`) replacing `is None` '
+         'so that 0, 0.0 or an empty array is treated as missing; a mutable default argument or a class-level attribute shared between '
+         'instances; returning or storing an alias / view of an internal array that a later call or the caller mutates; dtype narrowing '
+         '(float32, int32) or integer arithmetic where floats are needed; a wrong `axis`, `keepdims` or broadcasting slip that only shows for '
+         'non-square or single-row data; strict versus non-strict comparison; a slice end off by one; `and`/`or` precedence; a similar but '
+         'different variable (observed versus forecast count, start versus end); state that leaks from one call, catalog or iteration to the '
+         'next; a change in `__init__`, a property setter, `__eq__` or a copy method that the anchored functions rely on. Each of the three '
+         'seeds must sit in a different function and use a different one of these mechanisms; prefer functions that are NOT named in the anchors '
+         'but are on the path from the public API to them.',
 }
 prop = None
 for line in open(os.path.join(HERE, 'properties.jsonl')):
